@@ -99,14 +99,22 @@ Fixpoint insert_sorted (x : string) (l : list string) : list string :=
   end.
 Definition sort_uniq (l : list string) : list string := fold_right insert_sorted [] l.
 
+(* {x.name: x for x in lists}[n] : the LAST entity of that name wins *)
 Definition find_cl (e : env) (n : string) : option clist :=
-  find (fun c => String.eqb (cl_name c) n) (e_cl e).
+  find (fun c => String.eqb (cl_name c) n) (rev (e_cl e)).
 Definition find_pl (e : env) (n : string) : option plist :=
-  find (fun c => String.eqb (pl_name c) n) (e_pl e).
+  find (fun c => String.eqb (pl_name c) n) (rev (e_pl e)).
 Definition find_af (e : env) (n : string) : option aspf :=
-  find (fun c => String.eqb (af_name c) n) (e_af e).
+  find (fun c => String.eqb (af_name c) n) (rev (e_af e)).
 Definition find_rd (e : env) (n : string) : option rdf :=
-  find (fun c => String.eqb (rd_name c) n) (e_rd e).
+  find (fun c => String.eqb (rd_name c) n) (rev (e_rd e)).
+
+(* str.upper() on the characters an address text can hold *)
+Definition up_char (c : ascii) : ascii :=
+  let n := Ascii.nat_of_ascii c in
+  if Nat.leb 97 n && Nat.leb n 122 then Ascii.ascii_of_nat (n - 32) else c.
+Fixpoint up_str (s : string) : string :=
+  match s with EmptyString => EmptyString | String c r => String (up_char c) (up_str r) end.
 
 (* [m for name in names for m in communities[name].members]  (a missing name: KeyError in the
    code, outside the well-formed domain; the model contributes nothing for it) *)
@@ -822,7 +830,7 @@ Definition prefix_gen (v : vendor) (e : env) (ps : list policy) : gout :=
        match v with
        | Huawei =>
          map (fun im => MR [] (["ip"; (if v6 then "ipv6-prefix" else "ip-prefix"); dn; "index";
-                                nat_to_str (fst im * 5 + 5); "permit"; pm_addr (snd im); pm_len (snd im)]
+                                nat_to_str (fst im * 5 + 5); "permit"; up_str (pm_addr (snd im)); pm_len (snd im)]
                                ++ ge_le "greater-equal" "less-equal" (snd im)) false None) ms
        | Arista =>
          let hdr := [(if v6 then "ipv6" else "ip"); "prefix-list"; dn] in
